@@ -33,7 +33,7 @@ func LoadCorpus(snippets bool) []Item {
 		}
 		if fi.IsDir() {
 			n := fi.Name()
-			if n == ".git" || n == "node_modules" {
+			if n == ".git" || n == "node_modules" || nestedTree(repo, p) {
 				return filepath.SkipDir
 			}
 			return nil
@@ -122,7 +122,7 @@ func LoadGoMains() []Item {
 			return nil
 		}
 		if fi.IsDir() {
-			if fi.Name() == ".git" {
+			if fi.Name() == ".git" || nestedTree(repo, p) {
 				return filepath.SkipDir
 			}
 			return nil
@@ -181,4 +181,14 @@ func selfContainedMain(src string) bool {
 		}
 	}
 	return hasMain
+}
+
+// nestedTree: a sub-directory that is itself a git work tree (somebody's scratch checkout
+// inside the tree under test) is not part of the corpus.
+func nestedTree(repo, p string) bool {
+	if p == repo {
+		return false
+	}
+	_, err := os.Stat(filepath.Join(p, ".git"))
+	return err == nil
 }
